@@ -164,6 +164,12 @@ def _box(tier):
             if s >= 1:
                 for c8 in ([8, 8, 16, 16], [8, 40, 16, 16], [24, 8, 0, 0]):
                     yield {"cls": "Revolve", "n": n, "s": s, "c8": c8, "passes": 1}
+    # the same Revolve problems in other cost units (x 2**40, x 2**-40: exact rescalings)
+    for n in (4, 7, 12, 20, 30, 48):
+        for s in (1, 2, 3, 5):
+            yield {"cls": "Revolve", "n": n, "s": s, "c8": [8 << 40, 16 << 40, 16 << 40, 16 << 40], "passes": 1}
+            yield {"cls": "Revolve", "n": n, "s": s, "c8": [8, 16, 16, 16], "den": 8 << 40, "passes": 1}
+            yield {"cls": "Revolve", "n": n, "s": s, "c8": [3, 10, 9, 11], "den": 10, "passes": 1}
     # dense (n, s) grid beyond the all-splits box: defects of a step-size rule or a DP are sparse in (n, s)
     N2 = 64 if tier == "quick" else 150
     for n in range(N + 1, N2 + 1):
